@@ -208,6 +208,9 @@ class C08(Check):
                 node = offset_at(uni0.res, orig, si, pos)
                 if node.work() > 3000:
                     continue
+                if real_pos >= 1 and s["items"][real_pos - 1][0] in ("f", "c") and len(s["items"][real_pos - 1]) == (3 if s["items"][real_pos - 1][0] == "f" else 5) and n % 2 == 0:
+                    # the attribute right above the query carries a doc comment (same line, or the lines below it): no blank line between
+                    s["items"][real_pos - 1].append(["why this field exists", "first line\nsecond line of the comment"][n // 2 % 2])
                 s["items"].insert(real_pos, ["raw", "@print {%d} | _offset_  # %s" % (1000000 + n, tagk), []])
                 expect_prints.append((T.def_key(d), 1000000 + n, "set", set(node.expand())))
                 inserted.append((ri, di, si, idx))
